@@ -20,9 +20,11 @@ import (
 // a DID of an allowed method, whose credentials all and only fulfil the service's presentation definition; ...
 // and accepts a retraction only from the signer of an existing entry."
 //
-// H16a runs the real Module.verifyRegistration (+ validateAudience, validateRegistration, validateRetraction,
-// credential.PresentationSigner, did.ParseDIDURL, vc.VerifiablePresentation accessors, time.Until) on a
-// presentation value object.
+// The harnesses run the real Module.verifyRegistration (+ validateAudience, validateRegistration,
+// validateRetraction, credential.PresentationSigner, did.ParseDIDURL, vc.VerifiablePresentation accessors,
+// time.Until) on a presentation value object:
+//   H16a  composition of all checks (bit-vector encoding), every input symbolic
+//   H16b  the validity window in exact arithmetic incl. saturation of time.Sub (integer encoding)
 
 // The package init() compiles the service-definition JSON schema (embed + jsonschema): not needed here.
 //verif:stub github.com/nuts-foundation/nuts-node/discovery.init#1 => noop
@@ -54,11 +56,24 @@ const hRaw = "<compact JWS of the presentation>"
 
 type hEntry struct{ service, subject, id string }
 
+type hInstant struct {
+	present   bool
+	sec, nsec int // since the Unix epoch
+	t         time.Time
+}
+
 type hScenario struct {
 	serviceID string
 
-	// clock readings handed out so far (seconds, nanoseconds since the Unix epoch)
+	// clock: readings handed out so far; the first reading can be fixed in advance (H16a)
 	clockSec, clockNsec []int
+	now0Set             bool
+	now0Sec, now0Nsec   int
+
+	// H16a: the token's exp is (first clock reading) + remSec s + remNsec ns, see hDrawExpRelative
+	relative        bool
+	remSec, remNsec int
+	exp             hInstant
 
 	// signer: index into hSigners, drawn when the code asks for the kid of the token (-1: not yet)
 	signer int
@@ -69,6 +84,7 @@ type hScenario struct {
 	storeErr   bool
 
 	// Match
+	matchFixed bool // H16b: Match succeeds with an empty selection
 	matchCalls int
 	matchErr   bool
 	matchIdx   []int // indices (into the presentation's credentials) of the returned credentials
@@ -78,6 +94,7 @@ type hScenario struct {
 	verifyVCs      bool
 	verifyValidAt  bool // a validAt instant was passed (then taken as "now" by the fake)
 	verifyNowSec   int
+	sigFixed       bool // H16b: signatures are fine
 	sigOK          bool
 	verifyAccepted bool
 }
@@ -95,10 +112,10 @@ type hSigner struct {
 
 var hSigners = []hSigner{
 	{kid: "did:web:example.com#k1", isDID: true, method: "web", subject: "did:web:example.com"},
+	{kid: "#k1"}, // relative DID URL: go-did parses it, the DID is empty
 	{kid: "did:nuts:abc#k1", isDID: true, method: "nuts", subject: "did:nuts:abc"},
-	{kid: "did:abc:x:y?versionId=1#k2", isDID: true, method: "abc", subject: "did:abc:x:y"},
 	{kid: ""},
-	{kid: "#k1"},  // relative DID URL: go-did parses it, the DID is empty
+	{kid: "did:abc:x:y?versionId=1#k2", isDID: true, method: "abc", subject: "did:abc:x:y"},
 	{kid: "key1"}, // not a DID URL
 	{jwsErr: true},
 }
@@ -128,6 +145,7 @@ func hDrawStore() {
 	if hS.storeErr {
 		return
 	}
+	vTag("store.n")
 	n := vLen(0, vParam("entries", 1))
 	for i := 0; i < n; i++ {
 		e := hEntry{service: "another-service", subject: "did:web:somebody.else"}
@@ -164,6 +182,9 @@ func hStoreExists(s *sqlStore, serviceID string, credentialSubjectID string, pre
 // returned for several descriptors) or a de-duplicated selection (submission requirements); otherwise an error.
 func hMatch(pd pe.PresentationDefinition, vcs []vc.VerifiableCredential) ([]vc.VerifiableCredential, []pe.InputDescriptorMappingObject, error) {
 	hS.matchCalls++
+	if hS.matchFixed {
+		return nil, nil, nil
+	}
 	vTag("match.err")
 	hS.matchErr = vBool()
 	if hS.matchErr {
@@ -206,10 +227,15 @@ func hWallTime(sec, nsec int) time.Time {
 
 // clock: monotone, symbolic seconds and nanoseconds; every reading is recorded for the oracle.
 func vhNow() time.Time {
-	vTag("now.sec")
-	sec := vRange(0, 1<<36)
-	vTag("now.nsec")
-	nsec := vRange(0, 999999999)
+	var sec, nsec int
+	if len(hS.clockSec) == 0 && hS.now0Set {
+		sec, nsec = hS.now0Sec, hS.now0Nsec
+	} else {
+		vTag("now.sec")
+		sec = vRange(0, 1<<36)
+		vTag("now.nsec")
+		nsec = vRange(0, 999999999)
+	}
 	if n := len(hS.clockSec); n > 0 {
 		vAssume(sec > hS.clockSec[n-1] || (sec == hS.clockSec[n-1] && nsec >= hS.clockNsec[n-1]))
 	}
@@ -221,18 +247,29 @@ func vhNow() time.Time {
 // hTimeSub models time.Time.Sub for instants without a monotonic clock reading (everything decoded from a
 // JWT/JSON, and the harness clock; asserted below): the exact difference t-u in nanoseconds, saturated to
 // [minDuration, maxDuration]. That is what the real Sub computes (it forms d with wrap-around, returns d if
-// u.Add(d).Equal(t) and otherwise saturates in the direction of t.Before(u)); the model is validated against the
-// real Sub natively on boundary and random instants (see registry). Reason for the model: the real Sub calls
-// u.Add(d) with a symbolic d, which rewrites the wall word with bit operations (`wall&^nsecMask | nsec`,
+// u.Add(d).Equal(t) and otherwise saturates in the direction of t.Before(u)); the model was compared with the
+// real Sub natively on 5 million boundary and random instant pairs (see registry). Reason for the model: the real
+// Sub calls u.Add(d) with a symbolic d, which rewrites the wall word with bit operations (`wall&^nsecMask | nsec`,
 // `wall&hasMonotonic`) that the engine's integer encoding cannot express, and the 64-bit bit-vector encoding of
-// the *1e9 and /1e9 in Sub is not decided by z3. Precondition (asserted): |t.sec - u.sec| < 2^62.
+// the *1e9 and /1e9 in Sub is not decided by z3.
+//
+// In H16a the token's exp is constructed as (first clock reading) + remSec s + remNsec ns, |remSec| <= 2^33
+// (no saturation); then the difference is known by construction and returned in that form after checking that
+// Sub is applied to exactly these two instants (the solver does not decide the equivalence of the two forms in
+// the bit-vector encoding in time; H16b covers the general form).
 func hTimeSub(t, u time.Time) time.Duration {
 	const nsecMask = 1<<30 - 1
 	const minDuration, maxDuration = time.Duration(-1 << 63), time.Duration(1<<63 - 1)
 	tw, uw := vGetField(&t, "wall").(uint64), vGetField(&u, "wall").(uint64)
-	vAssert(tw < 1<<63 && uw < 1<<63, "H16a.time_model: instant with monotonic clock reading reached the Sub model")
 	ts, us := vGetField(&t, "ext").(int64), vGetField(&u, "ext").(int64) // sec()
-	vAssert(ts > -(1<<61) && ts < 1<<61 && us > -(1<<61) && us < 1<<61, "H16a.time_model_range: instant outside the range of the Sub model")
+	if hS.relative {
+		vAssert(hS.exp.present && len(hS.clockSec) == 1, "H16a.until_exp_now: time difference taken for other instants than the token's exp and the current time")
+		vAssert(tw == uint64(hS.exp.nsec) && ts == int64(hS.exp.sec)+hUnixToInternal, "H16a.until_exp: time difference taken from another instant than the token's exp")
+		vAssert(uw == uint64(hS.clockNsec[0]) && us == int64(hS.clockSec[0])+hUnixToInternal, "H16a.until_now: time difference taken to another instant than the current time")
+		return time.Duration(hS.remSec*1000000000 + hS.remNsec)
+	}
+	vAssert(tw < 1<<63 && uw < 1<<63, "H16b.time_model: instant with monotonic clock reading reached the Sub model")
+	vAssert(ts > -(1<<61) && ts < 1<<61 && us > -(1<<61) && us < 1<<61, "H16b.time_model_range: instant outside the range of the Sub model")
 	tn, un := int64(tw&nsecMask), int64(uw&nsecMask) // nsec()
 	ds, dn := ts-us, tn-un                             // exact difference = ds*1e9 + dn, -1e9 < dn < 1e9
 	// maxDuration = 9223372036*1e9 + 854775807, minDuration = -(9223372036*1e9 + 854775808)
@@ -248,31 +285,47 @@ func hTimeSub(t, u time.Time) time.Duration {
 	return time.Duration(ds*1000000000 + dn)
 }
 
-type hInstant struct {
-	present   bool
-	sec, nsec int
-	t         time.Time
-}
-
-// hFracs: nanosecond parts of instants decoded from the presentation. A JWT NumericDate has whole seconds (jwx
-// default precision); RFC 3339 values (a credential's expirationDate, or an `exp` given as RFC 3339 string, which
-// jwx tolerates) can carry a fraction. Concretised choice among boundary values (the first `fracs` of them)
-// because the engine's integer encoding cannot express time's `wall & hasMonotonic` tests on a symbolic wall word;
-// the seconds stay symbolic. The clock's nanoseconds are fully symbolic.
+// hFracs: nanosecond parts of instants decoded from the presentation in the integer encoding. A JWT NumericDate
+// has whole seconds (jwx default precision); RFC 3339 values (a credential's expirationDate, or an `exp` given as
+// RFC 3339 string, which jwx tolerates) can carry a fraction. Concretised choice among boundary values (the
+// first `fracs` of them) because the integer encoding cannot express time's `wall & hasMonotonic` tests on a
+// symbolic wall word; the seconds stay symbolic, the clock's nanoseconds are fully symbolic.
 var hFracs = []int{0, 999999999, 1}
 
-// hDrawInstant: an optional instant. Seconds are symbolic in +-2^40 around the Unix epoch (years -32873..36812,
-// well beyond the saturation range of time.Sub).
-func hDrawInstant(name string) hInstant {
-	vTag(name + ".present")
-	if !vBool() {
-		return hInstant{}
-	}
+// hDrawInstant: an instant with symbolic seconds in +-2^40 around the Unix epoch (years -32873..36812, well
+// beyond the saturation range of time.Sub) and symbolic nanoseconds (concrete: a choice from hFracs).
+func hDrawInstant(name string, concreteFrac bool) hInstant {
 	vTag(name + ".sec")
 	s := vRange(-(1 << 40), 1<<40)
 	vTag(name + ".nsec")
-	n := hFracs[vChoice(vParam("fracs", 1))]
+	var n int
+	if concreteFrac {
+		n = hFracs[vChoice(vParam("fracs", 1))]
+	} else {
+		n = vRange(0, 999999999)
+	}
 	return hInstant{present: true, sec: s, nsec: n, t: hWallTime(s, n)}
+}
+
+// hDrawExpRelative fixes the first clock reading now0 and draws exp = now0 + remSec s + remNsec ns with
+// -2^33 <= remSec <= 2^33 (+-272 years), 0 <= remNsec < 1e9. Every pair (now0, exp) within that distance has
+// exactly one such representation.
+func hDrawExpRelative() hInstant {
+	vTag("now0.sec")
+	hS.now0Sec = vRange(0, 1<<36)
+	vTag("now0.nsec")
+	hS.now0Nsec = vRange(0, 999999999)
+	hS.now0Set = true
+	hS.relative = true
+	vTag("exp-now0.sec")
+	hS.remSec = vRange(-(1 << 33), 1<<33)
+	vTag("exp-now0.nsec")
+	hS.remNsec = vRange(0, 999999999)
+	sum := hS.now0Nsec + hS.remNsec
+	carry := sum >= 1000000000
+	nsec := vIte(carry, sum-1000000000, sum)
+	sec := hS.now0Sec + hS.remSec + vIte(carry, 1, 0)
+	return hInstant{present: true, sec: sec, nsec: nsec, t: hWallTime(sec, nsec)}
 }
 
 // hAfter: a is a later instant than b (reference predicate on the decomposition).
@@ -288,12 +341,10 @@ type hToken struct {
 	audDrawn bool
 	aud      []string
 	expDrawn bool
-	exp      hInstant
 	jtiDrawn bool
 	jtiKind  int
 	jti      interface{}
 	jtiSet   bool
-	getOther bool
 }
 
 func (t *hToken) Audience() []string {
@@ -319,21 +370,24 @@ func (t *hToken) Audience() []string {
 func (t *hToken) Expiration() time.Time {
 	if !t.expDrawn {
 		t.expDrawn = true
-		t.exp = hDrawInstant("exp")
+		vTag("exp.present")
+		if vBool() {
+			hS.exp = hDrawExpRelative()
+		}
 	}
-	if !t.exp.present {
+	if !hS.exp.present {
 		return time.Time{}.UTC() // jwx: absent claim
 	}
-	return t.exp.t
+	return hS.exp.t
 }
 
 const (
-	hJtiAbsent = iota
+	hJtiString = iota
+	hJtiAbsent
 	hJtiNull
-	hJtiBool
-	hJtiNumber
 	hJtiEmptyString
-	hJtiString
+	hJtiNumber
+	hJtiBool
 	hJtiArray
 	hJtiObject
 	hJtiKinds
@@ -343,13 +397,12 @@ const (
 // nil, bool, float64, string, []interface{}, map[string]interface{}.
 func (t *hToken) Get(name string) (interface{}, bool) {
 	if name != "retract_jti" {
-		t.getOther = true
 		return nil, false
 	}
 	if !t.jtiDrawn {
 		t.jtiDrawn = true
 		vTag("retract_jti.kind")
-		t.jtiKind = vChoice(hJtiKinds)
+		t.jtiKind = vChoice(vParam("jtikinds", hJtiKinds))
 		t.jtiSet = true
 		switch t.jtiKind {
 		case hJtiAbsent:
@@ -391,8 +444,12 @@ type hVerifier struct{ verifier.Verifier }
 func (hVerifier) VerifyVP(presentation vc.VerifiablePresentation, verifyVCs bool, allowUntrustedVCs bool, validAt *time.Time) ([]vc.VerifiableCredential, error) {
 	hS.verifyCalls++
 	hS.verifyVCs = verifyVCs
-	vTag("signatures.ok")
-	hS.sigOK = vBool()
+	if hS.sigFixed {
+		hS.sigOK = true
+	} else {
+		vTag("signatures.ok")
+		hS.sigOK = vBool()
+	}
 	if validAt != nil {
 		hS.verifyValidAt = true
 		hS.verifyNowSec = int(validAt.Unix())
@@ -400,9 +457,8 @@ func (hVerifier) VerifyVP(presentation vc.VerifiablePresentation, verifyVCs bool
 		time.Now()
 		hS.verifyNowSec = hS.clockSec[len(hS.clockSec)-1]
 	}
-	tok := presentation.JWT().(*hToken)
-	tok.Expiration()
-	if tok.exp.present && hS.verifyNowSec >= tok.exp.sec {
+	presentation.JWT().Expiration()
+	if hS.exp.present && hS.verifyNowSec >= hS.exp.sec {
 		return nil, errors.New("harness: token is expired")
 	}
 	if hS.signer < 0 || !hSigners[hS.signer].isDID {
@@ -427,22 +483,34 @@ var hTypes = [][]string{
 }
 
 type hCase struct {
-	m         *Module
-	def       ServiceDefinition
-	vp        vc.VerifiablePresentation
-	tok       *hToken
-	format    string
-	hasID     bool
-	retract   bool // ground truth: the presentation carries the retraction type
-	credExp   []hInstant
-	maxValid  int
-	methods   []string
+	m        *Module
+	def      ServiceDefinition
+	vp       vc.VerifiablePresentation
+	tok      *hToken
+	format   string
+	hasID    bool
+	retract  bool // ground truth: the presentation carries the retraction type
+	credExp  []hInstant
+	maxValid int
+	methods  []string
+}
+
+func (c *hCase) finish() {
+	c.def = ServiceDefinition{ID: hS.serviceID, DIDMethods: c.methods, Endpoint: "https://example.com/discovery", PresentationMaxValidity: c.maxValid}
+	if c.hasID {
+		id := hURI("urn:uuid:0e7a3b9e")
+		c.vp.ID = &id
+	}
+	vSetField(&c.vp, "format", c.format)
+	vSetField(&c.vp, "raw", hRaw)
+	vSetField(&c.vp, "token", jwt.Token(c.tok))
 }
 
 func hNewCase() *hCase {
 	c := &hCase{}
 	hS = &hScenario{signer: -1}
 	c.m = &Module{vcrInstance: hVCR{}, store: &sqlStore{}}
+	c.tok = &hToken{}
 
 	// the service (operator configuration, JSON schema: id non-empty, presentation_max_validity >= 1)
 	vTag("service.id")
@@ -453,23 +521,14 @@ func hNewCase() *hCase {
 	nm := vLen(0, vParam("methods", 2))
 	for i := 0; i < nm; i++ {
 		vTag("service.did_method")
-		if vBool() {
-			c.methods = append(c.methods, vString(3))
-		} else {
-			c.methods = append(c.methods, vString(4))
-		}
+		c.methods = append(c.methods, vString(3))
 	}
-	c.def = ServiceDefinition{ID: hS.serviceID, DIDMethods: c.methods, Endpoint: "https://example.com/discovery", PresentationMaxValidity: c.maxValid}
 
 	// the presentation
 	vTag("vp.format")
 	c.format = vString(6) // "jwt_vp", "ldp_vp", or anything else of that length
 	vTag("vp.hasID")
 	c.hasID = vBool()
-	if c.hasID {
-		id := hURI("urn:uuid:0e7a3b9e")
-		c.vp.ID = &id
-	}
 	vTag("vp.type")
 	types := hTypes[vChoice(vParam("types", len(hTypes)))]
 	for _, t := range types {
@@ -478,33 +537,26 @@ func hNewCase() *hCase {
 			c.retract = true
 		}
 	}
+	maxCreds := vParam("creds", 2)
+	if c.retract && maxCreds > 1 {
+		maxCreds = 1 // the retraction rule only looks at the number of credentials
+	}
 	vTag("vp.credentials")
-	nc := vLen(0, vParam("creds", 2))
+	nc := vLen(0, maxCreds)
 	for i := 0; i < nc; i++ {
 		var cred vc.VerifiableCredential
-		e := hDrawInstant("credential.expirationDate")
-		if e.present {
+		var e hInstant
+		vTag("credential.expirationDate.present")
+		if !c.retract && vBool() {
+			e = hDrawInstant("credential.expirationDate", false)
 			t := e.t
 			cred.ExpirationDate = &t
 		}
 		c.credExp = append(c.credExp, e)
 		c.vp.VerifiableCredential = append(c.vp.VerifiableCredential, cred)
 	}
-	c.tok = &hToken{}
-	vSetField(&c.vp, "format", c.format)
-	vSetField(&c.vp, "raw", hRaw)
-	vSetField(&c.vp, "token", jwt.Token(c.tok))
+	c.finish()
 	return c
-}
-
-// hWithinMaxValidity: exp - now <= max seconds, in exact arithmetic (seconds first, no overflow: |ds| < 2^42).
-func hWithinMaxValidity(exp hInstant, nowSec, nowNsec, max int) bool {
-	ds := exp.sec - nowSec
-	dn := exp.nsec - nowNsec // -1e9 < dn < 1e9
-	if ds < max {
-		return true
-	}
-	return ds == max && dn <= 0
 }
 
 func H16a() {
@@ -541,10 +593,11 @@ func H16a() {
 	}
 	vAssert(addressed, "H16a.audience: accepted a presentation whose audience does not contain the service id")
 	// ... within the service's maximum validity ...
-	vAssert(tok.expDrawn && tok.exp.present, "H16a.has_expiration: accepted a presentation without expiration")
+	vAssert(tok.expDrawn && hS.exp.present, "H16a.has_expiration: accepted a presentation without expiration")
 	vAssert(len(hS.clockSec) > 0, "H16a.clock_read: accepted without reading the clock")
-	vAssert(hWithinMaxValidity(tok.exp, hS.clockSec[0], hS.clockNsec[0], c.maxValid), "H16a.max_validity: accepted a presentation that is valid longer than the service's maximum validity")
-	vAssert(tok.exp.sec > hS.clockSec[0], "H16a.not_expired: accepted a presentation that is already expired")
+	// exp - now0 = remSec s + remNsec ns by construction; |remSec| <= 2^33 and max <= 2^32, so both sides fit in 63 bits
+	vAssert(hS.remSec*1000000000+hS.remNsec <= c.maxValid*1000000000, "H16a.max_validity: accepted a presentation that is valid longer than the service's maximum validity")
+	vAssert(hS.remSec > 0 || (hS.remSec == 0 && hS.remNsec > 0), "H16a.not_expired: accepted a presentation that is already expired")
 	vAssert(!hS.verifyValidAt, "H16a.verified_now: presentation was verified for another instant than now")
 	// ... signed by a DID of an allowed method ...
 	vAssert(hS.signer >= 0 && hSigners[hS.signer].isDID, "H16a.signer_is_did: accepted a presentation whose signer is not a DID")
@@ -566,11 +619,19 @@ func H16a() {
 		for _, e := range c.credExp {
 			if e.present {
 				vCover("accepted-credential-with-expiration")
-				vAssert(!hAfter(tok.exp, e), "H16a.not_outliving_credentials: accepted a presentation that is valid longer than one of its credentials")
+				vAssert(!hAfter(hS.exp, e), "H16a.not_outliving_credentials: accepted a presentation that is valid longer than one of its credentials")
 			}
 		}
 		// ... whose credentials all and only fulfil the presentation definition
 		vAssert(hS.matchCalls == 1 && !hS.matchErr, "H16a.definition_matched: accepted a registration that does not fulfil the presentation definition")
+		dup := false
+		for a := 0; a < len(hS.matchIdx); a++ {
+			for b := a + 1; b < len(hS.matchIdx); b++ {
+				if hS.matchIdx[a] == hS.matchIdx[b] {
+					dup = true
+				}
+			}
+		}
 		for i := range c.credExp {
 			matched := false
 			for _, k := range hS.matchIdx {
@@ -578,18 +639,8 @@ func H16a() {
 					matched = true
 				}
 			}
-			if !matched {
-				dup := false
-				for a := 0; a < len(hS.matchIdx); a++ {
-					for b := a + 1; b < len(hS.matchIdx); b++ {
-						if hS.matchIdx[a] == hS.matchIdx[b] {
-							dup = true
-						}
-					}
-				}
-				if dup {
-					vClass("one credential satisfies several input descriptors")
-				}
+			if !matched && dup {
+				vClass("one credential selected for several input descriptors")
 			}
 			vAssert(matched, "H16a.all_credentials_matched: accepted a registration with a credential that the presentation definition did not select")
 		}
@@ -616,10 +667,96 @@ func H16a() {
 	}
 }
 
-// H16a_twin: a registration and a retraction can both get through the real code.
+// hFixedCase: a valid presentation for service "svc" signed by did:web:example.com (signer 0), no credentials,
+// Match and signatures fine; the caller sets type, claims and clock.
+func hFixedCase(types []string) *hCase {
+	c := &hCase{}
+	hS = &hScenario{signer: 0, serviceID: "svc", matchFixed: true, sigFixed: true}
+	c.m = &Module{vcrInstance: hVCR{}, store: &sqlStore{}}
+	c.tok = &hToken{audDrawn: true, aud: []string{"other", "svc"}}
+	c.format = vc.JWTPresentationProofFormat
+	c.hasID = true
+	c.maxValid = 3600
+	for _, t := range types {
+		c.vp.Type = append(c.vp.Type, hURI(t))
+	}
+	return c
+}
+
+// H16a_twin: a retraction of an existing entry gets through the real code.
 func H16a_twin() {
-	c := hNewCase()
-	if c.m.verifyRegistration(c.def, c.vp) == nil && c.retract && len(hS.entries) == 1 {
+	c := hFixedCase(hTypes[1])
+	c.finish()
+	if c.m.verifyRegistration(c.def, c.vp) == nil && len(hS.entries) == 1 && hS.remSec == 60 {
 		vAssert(false, "H16a_twin.reach: reachable")
+	}
+}
+
+// hWithinMaxValidity: exp - now <= max seconds, in exact arithmetic (seconds first, no overflow: |ds| < 2^42).
+func hWithinMaxValidity(exp hInstant, nowSec, nowNsec, max int) bool {
+	ds := exp.sec - nowSec
+	dn := exp.nsec - nowNsec // -1e9 < dn < 1e9
+	if ds < max {
+		return true
+	}
+	return ds == max && dn <= 0
+}
+
+// H16b: the validity window in exact arithmetic. Everything but exp, the clock and the maximum validity is fixed
+// and valid; exp is any instant within +-2^40 s of the epoch (or absent), independent of the clock, so that the
+// saturation of time.Sub is included. accepted <=> exp present and non-zero, exp - now <= max (exactly, with now =
+// the instant read by the check) and - VerifyVP contract - whole seconds of exp > whole seconds of now at
+// verification.
+func H16b() {
+	c := hFixedCase(hTypes[0])
+	vTag("service.max_validity")
+	c.maxValid = vRange(1, 1<<32)
+	c.tok.expDrawn = true
+	vTag("exp.present")
+	if vBool() {
+		hS.exp = hDrawInstant("exp", true)
+	}
+	c.finish()
+	err := c.m.verifyRegistration(c.def, c.vp)
+	exp := hS.exp
+	if err == nil {
+		vCover("accepted")
+		vAssert(exp.present, "H16b.has_expiration: accepted a presentation without expiration")
+		vAssert(len(hS.clockSec) == 2, "H16b.clock_reads: expected one clock reading by the validity check and one by the verifier")
+		vAssert(hWithinMaxValidity(exp, hS.clockSec[0], hS.clockNsec[0], c.maxValid), "H16b.max_validity: accepted a presentation that is valid longer than the service's maximum validity")
+		vAssert(exp.sec > hS.clockSec[0], "H16b.not_expired: accepted a presentation that is already expired")
+		if exp.sec-hS.clockSec[0] == c.maxValid {
+			vCover("accepted-at-maximum")
+		}
+	} else {
+		vCover("rejected")
+		if !exp.present {
+			vCover("rejected-no-expiration")
+			return
+		}
+		zero := exp.sec == -62135596800 && exp.nsec == 0 // 0001-01-01T00:00:00Z is jwx's "absent"
+		tooLong := len(hS.clockSec) >= 1 && !hWithinMaxValidity(exp, hS.clockSec[0], hS.clockNsec[0], c.maxValid)
+		expired := len(hS.clockSec) >= 2 && hS.clockSec[1] >= exp.sec
+		if tooLong {
+			vCover("rejected-too-long")
+			if exp.sec-hS.clockSec[0] > 9223372037 {
+				vCover("rejected-too-long-saturated")
+			}
+		}
+		if expired {
+			vCover("rejected-expired")
+		}
+		// conversely: within the window (and verifiable) => accepted
+		vAssert(zero || tooLong || expired, "H16b.window_is_accepted: a presentation within the validity window was rejected")
+	}
+}
+
+func H16b_twin() {
+	c := hFixedCase(hTypes[0])
+	c.tok.expDrawn = true
+	hS.exp = hDrawInstant("exp", true)
+	c.finish()
+	if c.m.verifyRegistration(c.def, c.vp) == nil && hS.exp.sec-hS.clockSec[0] == 3600 {
+		vAssert(false, "H16b_twin.reach: reachable")
 	}
 }
